@@ -632,3 +632,121 @@ Section DecodeEncode.
     intros r Hr. apply normalize_valid. rewrite forallb_forall in Hv. apply Hv. exact Hr.
   Qed.
 End DecodeEncode.
+
+(* ------------------------------------------------------------------ reports of hub members *)
+
+(* the float texts supplied for a member are JSON numbers (Go's formatter writes nothing else) *)
+Definition frames_ok (f : frames) : Prop :=
+  num_ok (fr_size f) = true /\ (forall l, fr_rate f = Finite l -> num_ok l = true).
+Definition member_ok (m : member) : Prop := frames_ok (m_tx m) /\ frames_ok (m_rx m).
+
+Lemma num_ok_zero : num_ok lex_zero = true.
+Proof. vm_compute. reflexivity. Qed.
+
+Lemma stats_json_frames now f : frames_ok f -> exists j, stats_json (stats_of_frames fps_from_ns now f) = Some j.
+Proof.
+  intros [Hs Hr]. unfold stats_of_frames, stats_json. destruct (0 <? fr_count f).
+  - cbn [rs_size rs_fps rs_last num_json]. rewrite Hs.
+    destruct (fr_rate f) as [l|] eqn:E; cbn [fps_from_ns num_json].
+    + rewrite (Hr l eq_refl). eexists; reflexivity.
+    + rewrite num_ok_zero. eexists; reflexivity.
+  - cbn [rs_size rs_fps rs_last num_json]. rewrite num_ok_zero. eexists; reflexivity.
+Qed.
+
+Lemma report_json_member now m : member_ok m -> exists j, report_json (report_of_member now m) = Some j.
+Proof.
+  intros [Ht Hx]. unfold report_json, report_of_member, report_of_member_with. cbn [r_tx r_rx].
+  destruct (stats_json_frames now _ Ht) as (jt & ->). destruct (stats_json_frames now _ Hx) as (jx & ->).
+  eexists; reflexivity.
+Qed.
+
+Lemma map_opt_total {A B} (f : A -> option B) l : (forall x, In x l -> exists y, f x = Some y) -> exists ys, map_opt f l = Some ys.
+Proof.
+  induction l as [|x l IH]; intros H; [exists []; reflexivity|]. cbn [map_opt].
+  destruct (H x (or_introl eq_refl)) as (y & ->). destruct IH as (ys & ->); [intros z Hz; apply H; right; exact Hz|].
+  eexists; reflexivity.
+Qed.
+
+(* with the repaired fpsFromNs every listing encodes, whatever the accumulators hold *)
+Theorem encode_total_lemma now ms :
+  Forall member_ok ms -> exists s, encode_reports (map (report_of_member now) ms) = Some s.
+Proof.
+  intros H. unfold encode_reports, reports_json.
+  destruct (map (report_of_member now) ms) as [|r rs] eqn:E; [eexists; reflexivity|]. rewrite <- E.
+  destruct (map_opt_total report_json (map (report_of_member now) ms)) as (l & ->); [|eexists; reflexivity].
+  intros r' Hr'. apply in_map_iff in Hr'. destruct Hr' as (m & <- & Hm). apply report_json_member.
+  rewrite Forall_forall in H. apply H. exact Hm.
+Qed.
+
+(* before the repair (fpsFromNs = 1/(ns*1e-9) as is): one member with mean inter-arrival 0 ns
+   and every listing fails to encode - statsReporter returns, /status fails (F13) *)
+Definition zero_mean_member : member :=
+  mk_member 7 [102; 49; 51] (Some [[114; 101; 97; 100]]) true true [] [] [] []
+            (mk_frames 1 0 [53] NonFinite) (mk_frames 0 0 lex_zero (Finite lex_zero)).
+
+Lemma encode_total_unguarded_refuted_lemma :
+  member_ok zero_mean_member /\
+  encode_reports [report_of_member_with fps_from_ns_unguarded 5 zero_mean_member] = None /\
+  exists s, encode_reports [report_of_member 5 zero_mean_member] = Some s.
+Proof.
+  split; [|split].
+  - repeat split; try (vm_compute; reflexivity); intros l H; try discriminate H.
+    cbn in H. inversion H; subst. vm_compute. reflexivity.
+  - vm_compute. reflexivity.
+  - eexists. vm_compute. reflexivity.
+Qed.
+
+Section Truth.
+  Variable lr : N -> N.
+  Variable ptime : bytes -> option (Z * Z).
+  Variable ncanon : bytes -> option bytes.
+  (* what is assumed of the library: ToLower leaves the micro sign alone; a float text written by
+     the encoder reads back as the same float (shortest round-trip formatting) *)
+  Hypothesis lr_micro : lr 181 = 181.
+  Hypothesis ncanon_zero : ncanon lex_zero = Some lex_zero.
+
+  Definition frames_read_back (f : frames) : Prop :=
+    ncanon (fr_size f) = Some (fr_size f) /\ (forall l, fr_rate f = Finite l -> ncanon l = Some l).
+
+  Definition rate_text (f : frames) : bytes :=
+    match fr_rate f with Finite l => l | NonFinite => lex_zero end.
+
+  (* the truth about one direction of a connection, as the client should see it *)
+  Definition true_stats (now : Z) (f : frames) : dstats :=
+    if 0 <? fr_count f then mk_dstats (now - fr_last f) (fr_size f) (rate_text f) false
+    else mk_dstats dur_999h lex_zero lex_zero true.
+
+  Lemma view_stats_frames now f :
+    frames_read_back f -> (- two63 <= now - fr_last f < two63)%Z ->
+    view_stats_with lr ncanon sanitize (stats_of_frames fps_from_ns now f) = Some (true_stats now f).
+  Proof.
+    intros [Hs Hr] Hrange. unfold stats_of_frames, true_stats, view_stats_with, rate_text.
+    destruct (0 <? fr_count f).
+    - fold (sanitize (duration_bytes (now - fr_last f))).
+      assert (Hsan : sanitize (duration_bytes (now - fr_last f)) = duration_bytes (now - fr_last f))
+        by (apply sanitize_ok; apply duration_bytes_okstr; exact Hrange).
+      destruct (fr_rate f) as [l|] eqn:E; cbn [fps_from_ns].
+      + rewrite Hsan, (duration_roundtrip lr _ lr_micro Hrange), Hs, (Hr l eq_refl). reflexivity.
+      + rewrite Hsan, (duration_roundtrip lr _ lr_micro Hrange), Hs, ncanon_zero. reflexivity.
+    - change (sanitize lit_Never) with lit_Never.
+      destruct (never_roundtrip lr) as [Hn _]. unfold lit_Never. rewrite Hn, ncanon_zero. reflexivity.
+  Qed.
+
+  Definition true_view (now : Z) (tc te : Z * Z) (m : member) : dreport :=
+    mk_dreport (m_canRead m) (m_canWrite m) tc te (sanitize (m_remoteAddr m))
+               (option_map (map sanitize) (m_scopes m))
+               (true_stats now (m_tx m)) (true_stats now (m_rx m))
+               (sanitize (m_topic m)) (sanitize (m_userAgent m)).
+
+  Theorem client_reads_truth_lemma now m tc te :
+    ptime (quote_body true (m_connected m)) = Some tc ->
+    ptime (quote_body true (m_expiresAt m)) = Some te ->
+    frames_read_back (m_tx m) -> frames_read_back (m_rx m) ->
+    (- two63 <= now - fr_last (m_tx m) < two63)%Z -> (- two63 <= now - fr_last (m_rx m) < two63)%Z ->
+    normalize lr ptime ncanon (report_of_member now m) = Some (true_view now tc te m).
+  Proof.
+    intros Hc He Ht Hx Rt Rx. unfold normalize, normalize_with, report_of_member, report_of_member_with, true_view.
+    cbn [r_connected r_expiresAt r_tx r_rx r_canRead r_canWrite r_remoteAddr r_scopes r_topic r_userAgent].
+    rewrite Hc, He, (view_stats_frames now _ Ht Rt), (view_stats_frames now _ Hx Rx). reflexivity.
+  Qed.
+End Truth.
